@@ -338,6 +338,6 @@ def plan(tier):
 
 def run_shard(ctx, spec):
     quick = ctx.tier == "quick"
-    ctx.explore("smear1d", cases1d(), 100 if quick else 1500, shrink_examples=25)
-    ctx.explore("smear2d", cases2d(), 60 if quick else 800, shrink_examples=25)
-    ctx.explore("direct2d", cases_direct2d(), 30 if quick else 400, shrink_examples=25)
+    ctx.explore("smear1d", cases1d(), 400 if quick else 4000, shrink_examples=25)
+    ctx.explore("smear2d", cases2d(), 120 if quick else 1200, shrink_examples=25)
+    ctx.explore("direct2d", cases_direct2d(), 60 if quick else 600, shrink_examples=25)
